@@ -6,7 +6,7 @@
 From Coq Require Import String.
 From Coq Require Import List NArith ZArith Bool.
 From HS Require Import Base.Prelude Model.Value Model.Filter.
-From HS Require Import Proofs.FilterP.
+From HS Require Import Proofs.FilterP Proofs.FilterGrammarP.
 Import ListNotations.
 Open Scope N_scope.
 
@@ -58,7 +58,7 @@ Qed.
 (* the grammar, on concrete texts (computed; tests of the parser model, the unbounded tie is the correspondence):
    and binds tighter than or, both fold to the left, parentheses, keywords only at word boundaries *)
 Definition has (s : string) := FHas [s_ s].
-Example C11_grammar :
+Example C11_grammar_examples :
   fparse (s_ "a and b or c") = Some (FOr (FAnd (has "a") (has "b")) (has "c")) /\
   fparse (s_ "a or b and c") = Some (FOr (has "a") (FAnd (has "b") (has "c"))) /\
   fparse (s_ "a and b and c and d") = Some (FAnd (FAnd (FAnd (has "a") (has "b")) (has "c")) (has "d")) /\
@@ -70,6 +70,26 @@ Example C11_grammar :
   fparse (s_ "a andb") = None /\ fparse (s_ "a ==") = None /\ fparse (s_ "(a") = None.
 Proof. vm_compute. repeat split. Qed.
 
+(* THE GRAMMAR, for every filter over presence atoms (has / not on a tag whose name is lower-case letters,
+   any name but the word "not"), of ANY size and nesting: the text written with single blanks, `and` chains
+   inside `or` chains, parentheses exactly where an operand is itself an `or` (under `and`) or a right-nested
+   chain, is parsed back to exactly that tree.  Hence `and` binds tighter than `or`, both are
+   left-associative over any number of operands, parentheses override, and tags called note, orb, andy...
+   are tags. *)
+Theorem C11_grammar : forall e, printable e -> fparse (pr_or_i e) = Some e.
+Proof. exact fparse_print. Qed.
+Corollary C11_and_chain_folds_left : forall ns n0, Forall simple_name (n0 :: ns) ->
+  fparse (pr_or_i (fold_left FAnd (map FilterGrammarP.has ns) (FilterGrammarP.has n0))) = Some (fold_left FAnd (map FilterGrammarP.has ns) (FilterGrammarP.has n0)).
+Proof. exact chain_and_left. Qed.
+(* what the printed text looks like (computed) *)
+Example C11_printer :
+  pr_or_i (FOr (FAnd (has "a") (has "b")) (has "c")) = s_ "a and b or c" /\
+  pr_or_i (FAnd (has "a") (FOr (has "b") (has "c"))) = s_ "a and (b or c)" /\
+  pr_or_i (FAnd (has "a") (FAnd (has "b") (has "c"))) = s_ "a and (b and c)" /\
+  pr_or_i (FOr (has "note") (FOr (FMissing [s_ "orb"]) (has "andy"))) = s_ "note or (not orb or andy)".
+Proof. vm_compute. repeat split. Qed.
+
+Print Assumptions C11_grammar.
 Print Assumptions C11_compile_correct.
 Print Assumptions C11_filter_selects.
 Print Assumptions C11_absent_is_false.
